@@ -125,6 +125,196 @@ Fixpoint any_presentK (kc : kcfg) (env : list obj) (fs : fields) (o : obj) : boo
   | FEmbed _ _ _ rest => any_presentK kc env rest o
   end.
 
+(* ------------------------------------------------------------------ default= on slice fields
+
+   fillSliceWithDefault: the default text of a []string (or []*string ...) field is cut into
+   segments by the tag grammar (parseGroupedSegments); for any other element kind it is read as a
+   JSON value, which must be an array; the elements then go through fillSlice like a supplied
+   array.  The JSON reader below covers flat and nested arrays of numbers, strings without
+   escapes, true / false / null over printable ASCII ([json_plain]); texts outside that alphabet
+   are outside the modelled fragment ([fields_okK]). *)
+
+Definition is_ws (c : ascii) : bool :=
+  let n := N_of_ascii c in ((n =? 32) || ((9 <=? n) && (n <=? 13)))%N.
+
+Fixpoint ltrim (l : list ascii) : list ascii :=
+  match l with c :: r => if is_ws c then ltrim r else l | [] => [] end.
+Definition trim_l (l : list ascii) : list ascii := rev (ltrim (rev (ltrim l))).
+
+Definition ch (c : ascii) (n : N) : bool := (N_of_ascii c =? n)%N.
+Definition is_open (c : ascii) : bool := ch c 40 || ch c 91.      (* ( [ *)
+Definition is_close (c : ascii) : bool := ch c 41 || ch c 93.     (* ) ] *)
+
+(* parseSegments: commas split outside groups, a backslash outside a group escapes the next
+   character, every segment is trimmed, a trailing empty one is dropped *)
+Fixpoint segs_go (l : list ascii) (escaped grouped : bool) (buf : list ascii) (acc : list string) : list string :=
+  match l with
+  | [] =>
+    let last := trim_l (rev buf) in
+    rev (match last with [] => acc | _ => string_of_list_ascii last :: acc end)
+  | c :: r =>
+    if escaped then segs_go r false grouped (c :: buf) acc
+    else if ch c 44 then
+      (if grouped then segs_go r false grouped (c :: buf) acc
+       else segs_go r false grouped [] (string_of_list_ascii (trim_l (rev buf)) :: acc))
+    else if ch c 92 then
+      (if grouped then segs_go r false grouped (c :: buf) acc else segs_go r true grouped buf acc)
+    else if is_open c then segs_go r false true (c :: buf) acc
+    else if is_close c then segs_go r false false (c :: buf) acc
+    else segs_go r false grouped (c :: buf) acc
+  end.
+
+Fixpoint drop_while (p : ascii -> bool) (l : list ascii) : list ascii :=
+  match l with c :: r => if p c then drop_while p r else l | [] => [] end.
+
+(* parseGroupedSegments *)
+Definition grouped_segments (d : string) : list string :=
+  let l := drop_while is_open (list_ascii_of_string d) in
+  let l := rev (drop_while is_close (rev l)) in
+  segs_go l false false [] [].
+
+(* ---- a reader for JSON arrays of scalars ---- *)
+
+Definition is_digit_a (c : ascii) : bool := let n := N_of_ascii c in ((48 <=? n) && (n <=? 57))%N.
+
+Fixpoint take_digits (l : list ascii) : list ascii * list ascii :=
+  match l with
+  | c :: r => if is_digit_a c then let '(d, r') := take_digits r in (c :: d, r') else ([], l)
+  | [] => ([], [])
+  end.
+
+(* the JSON number grammar: optional minus, 0 or a digit string without leading 0, optional
+   fraction with at least one digit, optional exponent; returns the literal and the rest *)
+Definition take_number (l : list ascii) : option (list ascii * list ascii) :=
+  let '(sign, l1) := match l with c :: r => if ch c 45 then ([c], r) else ([], l) | [] => ([], []) end in
+  let '(ip, l2) := take_digits l1 in
+  match ip with
+  | [] => None
+  | d0 :: more =>
+    if ch d0 48 && negb (match more with [] => true | _ => false end) then None else
+    let frac :=
+      match l2 with
+      | c :: r => if ch c 46 then
+                    let '(fp, r') := take_digits r in
+                    match fp with [] => None | _ => Some (c :: fp, r') end
+                  else Some ([], l2)
+      | [] => Some ([], [])
+      end in
+    match frac with
+    | None => None
+    | Some (fp, l3) =>
+      let ex :=
+        match l3 with
+        | c :: r =>
+          if ch c 101 || ch c 69 then
+            let '(sg, r1) := match r with c2 :: r2 => if ch c2 43 || ch c2 45 then ([c2], r2) else ([], r) | [] => ([], []) end in
+            let '(ep, r') := take_digits r1 in
+            match ep with [] => None | _ => Some (c :: sg ++ ep, r') end
+          else Some ([], l3)
+        | [] => Some ([], [])
+        end in
+      match ex with
+      | None => None
+      | Some (ep, l4) => Some (sign ++ ip ++ fp ++ ep, l4)
+      end
+    end
+  end.
+
+Fixpoint take_string (l : list ascii) : option (list ascii * list ascii) :=
+  match l with
+  | [] => None
+  | c :: r =>
+    if ch c 34 then Some ([], r)
+    else if ch c 92 then None
+    else let n := N_of_ascii c in
+         if ((n <? 32) || (126 <? n))%N then None
+         else match take_string r with Some (s, r') => Some (c :: s, r') | None => None end
+  end.
+
+Fixpoint starts_with (p l : list ascii) : option (list ascii) :=
+  match p, l with
+  | [], _ => Some l
+  | a :: p', b :: l' => if Ascii.eqb a b then starts_with p' l' else None
+  | _, [] => None
+  end.
+
+Fixpoint pvalue (fuel : nat) (l : list ascii) {struct fuel} : option (jv * list ascii) :=
+  match fuel with
+  | O => None
+  | S f =>
+    match ltrim l with
+    | [] => None
+    | c :: r =>
+      if ch c 91 then
+        match ltrim r with
+        | c2 :: r2 => if ch c2 93 then Some (JArr [], r2) else pelems f (c2 :: r2) []
+        | [] => None
+        end
+      else if ch c 34 then
+        match take_string r with Some (s, r') => Some (JStr (string_of_list_ascii s), r') | None => None end
+      else match starts_with (list_ascii_of_string "true") (c :: r) with
+      | Some r' => Some (JBool true, r')
+      | None =>
+      match starts_with (list_ascii_of_string "false") (c :: r) with
+      | Some r' => Some (JBool false, r')
+      | None =>
+      match starts_with (list_ascii_of_string "null") (c :: r) with
+      | Some r' => Some (JNull, r')
+      | None =>
+      match take_number (c :: r) with
+      | Some (n, r') => Some (JNum (string_of_list_ascii n), r')
+      | None => None
+      end end end end
+    end
+  end
+with pelems (fuel : nat) (l : list ascii) (acc : list jv) {struct fuel} : option (jv * list ascii) :=
+  match fuel with
+  | O => None
+  | S f =>
+    match pvalue f l with
+    | Some (v, r) =>
+      match ltrim r with
+      | c :: r' =>
+        if ch c 44 then pelems f r' (v :: acc)
+        else if ch c 93 then Some (JArr (rev (v :: acc)), r')
+        else None
+      | [] => None
+      end
+    | None => None
+    end
+  end.
+
+(* the first JSON value of the text (json.Decoder.Decode); what follows a complete array is not read *)
+Definition json_value (d : string) : option jv :=
+  let l := list_ascii_of_string d in
+  match pvalue (S (S (2 * List.length l))) l with
+  | Some (v, rest) =>
+    match v, ltrim rest with
+    | JArr _, _ => Some v
+    | _, [] => Some v
+    | _, _ => None        (* "invalid character after top-level value" *)
+    end
+  | None => None
+  end.
+
+(* printable ASCII without the characters of objects and escapes *)
+Definition json_plain (d : string) : bool :=
+  forallb (fun c => let n := N_of_ascii c in
+                    ((32 <=? n) && (n <=? 126))%N && negb (ch c 123 || ch c 125 || ch c 92 || ch c 58))
+          (list_ascii_of_string d).
+
+Fixpoint elem_is_string (t : ftype) : bool :=
+  match t with TPrim KStr => true | TPtr t' => elem_is_string t' | _ => false end.
+
+(* the value that stands for the default text of a slice field with elements of type [e] *)
+Definition slice_default_doc (e : ftype) (d : string) : option jv :=
+  if elem_is_string e then
+    match grouped_segments d with
+    | [] => Some JNull                                  (* a nil []string: the target stays nil *)
+    | l => Some (JArr (map JStr l))
+    end
+  else json_value d.
+
 (* ------------------------------------------------------------------ the unmarshaller *)
 
 Section Unmarshal.
@@ -184,6 +374,21 @@ with umk_absent (t : ftype) {struct t} : result gval :=
     if required_fields fs then Err ENotSet else rmap VStruct (umk_fields [] fs [])
   end
 
+(* key absent, default declared: processNamedFieldWithoutValue *)
+with umk_default (t : ftype) (d : string) {struct t} : result gval :=
+  match t with
+  | TPrim k => of_opt (conv_string k d) EConv
+  | TPtr t' => rmap VPtr (umk_default t' d)
+  | TSlice e =>
+    match slice_default_doc e d with
+    | Some (JArr l) => slice_with (umk_elem false e) (zero e) l
+    | Some JNull => if elem_is_string e then Ok VNil else Err EType
+    | Some _ => Err EType
+    | None => Err EConv
+    end
+  | _ => Err EType
+  end
+
 (* the fields [fs] against the object [o]; [env]: the objects of the enclosing struct fields *)
 with umk_fields (env : list obj) (fs : fields) (o : obj) {struct fs} : result (list gval) :=
   match fs with
@@ -195,7 +400,7 @@ with umk_fields (env : list obj) (fs : fields) (o : obj) {struct fs} : result (l
           match field_inputK kc env t key o with
           | None =>
             match ro_default ro with
-            | Some d => um_default t d
+            | Some d => umk_default t d
             | None => if ro_optional ro then Ok (zero t) else umk_absent t
             end
           | Some JNull => if ro_optional ro then Ok (zero t) else Err ENil
@@ -291,6 +496,25 @@ Fixpoint no_ignored (fs : fields) : bool :=
   | FEmbed _ _ _ rest => no_ignored rest
   end.
 
+(* default texts on slice fields the model reads like go-zero: any text for string elements;
+   printable ASCII without object / escape characters otherwise *)
+Definition slice_default_ok (t : ftype) (d : string) : bool :=
+  match t with
+  | TSlice e => elem_is_string e || json_plain d
+  | _ => negb (is_slice_deref t)
+  end.
+
+Fixpoint no_slice_defaults (fs : fields) : bool :=
+  match fs with
+  | FNil => true
+  | FCons _ o t rest =>
+    match o with
+    | Some o' => match o_default o' with Some _ => negb (is_slice_deref t) | None => true end
+    | None => true
+    end && no_slice_defaults rest
+  | FEmbed _ _ _ rest => no_slice_defaults rest
+  end.
+
 Fixpoint type_okK (t : ftype) : bool :=
   match t with
   | TPrim _ => true
@@ -306,10 +530,10 @@ with fields_okK (fs : fields) : bool :=
   | FCons _ o t rest =>
     type_okK t
     && match o with
-       | Some o' => match o_default o' with Some _ => negb (is_slice_deref t) | None => true end
+       | Some o' => match o_default o' with Some d => slice_default_ok t d | None => true end
        | None => true
        end
     && fields_okK rest
   | FEmbed opt _ inner rest =>
-    fields_okK inner && (negb opt || (no_embed inner && no_ignored inner)) && fields_okK rest
+    fields_okK inner && (negb opt || (no_embed inner && no_ignored inner && no_slice_defaults inner)) && fields_okK rest
   end.
